@@ -42,7 +42,7 @@ CHECKS.update({
     "C09": dict(
         engine="E1 SymArray (z3 over aliasing)",
         cat=TV,
-        text="Every argument (and its base buffer) is snapshotted cell-wise before the real call on SymArrays in 5 memory layouts (contiguous, transposed view, sliced view, stride-0 broadcast view, read-only); afterwards z3 decides whether any protected cell can differ for some contents/coordinates. Views are numpy's real views, stores go through the symbolic store model. Objects passed as sizes/options (lists, tuples, numpy arrays and scalars) are compared concretely: contents, type, shape, dtype and flags. A concrete shadow run on plain numpy arrays in the same layouts validates the symbolic write-set (and is bug-finding only where the symbolic run is cut short by a comparison inside numpy's C code).",
+        text="Every argument (and its base buffer) is snapshotted cell-wise before the real call on SymArrays in 5 memory layouts (contiguous, transposed view, sliced view, stride-0 broadcast view, read-only); afterwards z3 decides whether any protected cell can differ for some contents/coordinates. Views are numpy's real views, stores go through the symbolic store model. Objects passed as sizes/options (lists, tuples, numpy arrays and scalars) are compared concretely: contents, type, shape, dtype and flags. Calls with one operand too many and a race probe for API-layer objects that outlive a call are included. A concrete shadow run on plain numpy arrays in the same layouts validates the symbolic write-set (and is bug-finding only where the symbolic run is cut short by a comparison inside numpy's C code).",
         note="Trusted: object-dtype buffers share numpy's view/copy semantics; symbolic store model; z3. dtype itself is not varied. Family bounds as C01.",
         tech="symbolic execution of real code with alias-preserving buffers + SMT query on cell changes",
         ref="DESIGN.md §3 C09",
@@ -99,7 +99,7 @@ CHECKS.update({
     "C03": dict(
         engine="E3 CrossHair + E4 z3 + E1 SymArray monitor",
         cat="other",
-        text="Layer 1: CrossHair symbolically executes the real pre-solve stage (parser, signature/bracket/keyword checks) of all 8 operation families over token sequences; exhaustive per condition. Layer 2: every family member is corrupted by one edit (dimension, rank, keyword, tensor count, axis dropped/duplicated/renamed, one bracket moved/added/removed, arrow/parenthesis edits); z3 decides on the independent constraint system whether the corrupted call is really ill-formed, and an own tokenisation decides the stated bracket rule (an axis is either bracketed or not); ill-formed calls must raise a documented class, no call may raise an internal class. Layer 3: SymArray dispatch counter must be 0 when the exception surfaces.",
+        text="Layer 1: CrossHair symbolically executes the real pre-solve stage (parser, signature/bracket/keyword checks) of all 8 operation families over token sequences; exhaustive per condition. Layer 2: every family member is corrupted by one edit (dimension, rank, keyword, tensor count, axis dropped/duplicated/renamed, one bracket moved/added/removed, arrow/parenthesis edits); z3 decides on the independent constraint system whether the corrupted call is really ill-formed, and an own tokenisation decides the stated bracket rule (an axis is either bracketed or not), the uniqueness of an implicit element-wise output, operand counts of fixed-arity operations and bool-for-int sizes after a valid call; structure probes (groups/numbers/concatenations under ellipses through solve_*/matches/id) may raise no internal class; ill-formed calls must raise a documented class, no call may raise an internal class. Layer 3: SymArray dispatch counter must be 0 when the exception surfaces.",
         note="The sympy-backed solver is cut in layer 1 (sentinel stub). For string-level edits that do not break the bracket rule only 'no internal type' and 'no computation before rejection' are demanded. 13-token alphabet, length 3 (quick) / 4 (thorough).",
         tech="CrossHair symbolic execution of the real entry stage + SMT adjudication of ill-formedness of single-edit corruptions",
         ref="DESIGN.md §3 C03",
@@ -107,7 +107,7 @@ CHECKS.update({
     "C12": dict(
         engine="E3 CrossHair",
         cat="other",
-        text="CrossHair (z3-driven) executes the real stage1.parse_op, the real __str__ of the tree classes and the real el_op re-parsing of all operation families over token/chunk sequences selected by symbolic integers: totality with caller-quoting SyntaxErrors, invariance under redundant spaces (between chunks, and at two symbolic redundant-gap positions inside each of 40 valid corpus descriptions), re-print stability; public operations hand the caller's description to the parser verbatim (spy on the parser, whitespace alphabet incl. tab/newline/NBSP). 'Confirmed over all paths' is exhaustive per alphabet and length. Arbitrary-character strings (symbolic str) are bug-finding only.",
+        text="CrossHair (z3-driven) executes the real stage1.parse_op, the real __str__ of the tree classes and the real el_op re-parsing of all operation families over token/chunk sequences selected by symbolic integers: totality with caller-quoting SyntaxErrors, invariance under redundant spaces (between chunks, and at two symbolic redundant-gap positions inside each of 40 valid corpus descriptions), re-print stability; public operations hand the caller's description to the parser verbatim (spy on the parser, whitespace alphabet incl. tab/newline/NBSP) and produce no SyntaxError for ordinary descriptions whatever the rank / the decimal length of sizes. 'Confirmed over all paths' is exhaustive per alphabet and length. Arbitrary-character strings (symbolic str) are bug-finding only.",
         note="Bounds: 13 tokens^3, 9 tokens^4, 17 chunks^2, 12 chunks^3, 8 chunks^3 x 3 spacing flags (quick); larger in thorough. Nothing is claimed beyond the alphabets.",
         tech="CrossHair symbolic execution of the real parser and printer (exhaustive path confirmation)",
         ref="DESIGN.md §3 C12",
@@ -140,7 +140,7 @@ CHECKS.update({
     "C10": dict(
         engine="E4 z3 bounded model checking",
         cat="model_checking",
-        text="PARTIAL (registry and tracing context stack). The read/compute/write micro-steps of BackendRegistry are re-derived from the AST of backend.py at every run (which methods hold the lock, read and write self.state); 2-3 threads run short programs of get / enter / exit / register; the schedule is a vector of symbolic thread ids; z3 searches for a schedule whose per-call observations and final state match no interleaving of whole calls (linearizability). The abstract call semantics are validated against the real BackendRegistryState on all small states; a sat schedule is replayed with real threads gated at the read/write boundaries. The tracing context stack (tracer.graph.depend_on) is classified per-thread/shared from the AST, the classification is validated with two real threads, and z3 searches the push/read/pop interleavings of two calls for a read that sees another call's entry; sat schedules are replayed through the public API with gated threads. The same two-call model is applied to every object that outlives a call and is mutated inside a function without a lock (module-level containers, mutable default arguments, global rebinding; found from the AST of all modules), replayed over all ordered pairs of a pool of first-time calls.",
+        text="PARTIAL (registry and tracing context stack). The read/compute/write micro-steps of BackendRegistry are re-derived from the AST of backend.py at every run (which methods hold the lock, read and write self.state); 2-3 threads run short programs of get / enter / exit / register; the schedule is a vector of symbolic thread ids; z3 searches for a schedule whose per-call observations and final state match no interleaving of whole calls (linearizability). The abstract call semantics are validated against the real BackendRegistryState on all small states; a sat schedule is replayed with real threads gated at the read/write boundaries. The tracing context stack (tracer.graph.depend_on) is classified per-thread/shared from the AST, the classification is validated with two real threads, and z3 searches the push/read/pop interleavings of two calls for a read that sees another call's entry; sat schedules are replayed through the public API with gated threads. The same two-call model is applied to every object that outlives a call and is mutated inside a function without a lock (module-level containers, mutable default arguments, global rebinding; found from the AST of all modules), replayed over all ordered pairs of a pool of first-time calls; iteration over the live sys.modules is replayed against an importing thread.",
         note="Assumed: functools.cache atomic per call; device/namespace stacks of the torch/array-api adapters are outside (frameworks not installed). Bounds: 2 threads (3 thorough), <= 4 calls each, with-stack depth 4.",
         tech="SMT-based bounded model checking of thread interleavings (linearizability) + gated-thread replay",
         ref="DESIGN.md §3 C10",
